@@ -565,8 +565,6 @@ package mqtt
 //@ modifies nev, evkind, evcl, evid
 // verif:func mqtt.Server.processConnect trusted modifies=all
 //@ ensures cl.State.Inflight == old(cl.State.Inflight)
-// verif:func mqtt.Server.processDisconnect trusted modifies=all
-//@ ensures cl.State.Inflight == old(cl.State.Inflight)
 // verif:func mqtt.Server.processAuth trusted modifies=all
 //@ ensures cl.State.Inflight == old(cl.State.Inflight)
 // verif:func mqtt.Inflight.NextImmediate trusted
@@ -574,3 +572,41 @@ package mqtt
 
 // verif:func mqtt.Server.processPacket modifies=all
 //@ requires validDispatch(s, cl) && publishErr == nil && !cl.stopped && !s.Options.Capabilities.Compatibilities.PassiveClientDisconnect
+
+// ======================================================================================
+// Connection lifecycle (C13, C14, C15, C16, C17, C23, C35)
+// ======================================================================================
+// ghost: clients currently in the registry, will messages waiting for their delay
+// verif:ghost field registered ref bool
+// verif:ghost field willPending ref bool
+// verif:ghost var nwillsent int
+
+// verif:ext sync.WaitGroup.Add pure
+// verif:ext sync.WaitGroup.Done pure
+// verif:ext sync.WaitGroup.Wait pure
+
+// verif:func mqtt.Clients.Add trusted
+//@ requires C13-registered-only-after-its-connack: val.nsent > 0
+//@ modifies val.registered, entries(cl.internal)
+//@ ensures val.registered
+// verif:func mqtt.Clients.Delete trusted
+//@ modifies entries(cl.internal)
+// verif:func packets.Packets.Delete trusted
+// verif:func packets.Packets.Add trusted
+
+// verif:func mqtt.Server.SendConnack modifies=all
+//@ requires validCl(cl) && validSrv(s) && (reason.Code < 128 ==> reason.Code == 0)
+//@ ensures C13-exactly-one-connack-or-error: r0 == nil ==> sentOne(cl) && lastSent(cl).FixedHeader.Type == Connack
+//@ ensures C13-nothing-else-written: cl.nsent <= old(cl.nsent) + 1
+//@ ensures C14-session-present-bit: r0 == nil && reason.Code < 128 ==> lastSent(cl).SessionPresent == present && lastSent(cl).ReasonCode == reason.Code
+//@ ensures C14-failure-never-reports-a-session: r0 == nil && reason.Code >= 128 ==> !lastSent(cl).SessionPresent
+//@ ensures C15-session-expiry-capped-at-server-maximum: r0 == nil && reason.Code < 128 ==> cl.Properties.Props.SessionExpiryInterval <= s.Options.Capabilities.MaximumSessionExpiryInterval
+//@ ensures C23-mqtt3-connack-return-codes: r0 == nil && cl.Properties.ProtocolVersion < 5 ==> lastSent(cl).ReasonCode <= 5
+
+// verif:func mqtt.Server.processDisconnect modifies=all
+//@ requires validCl(cl) && validSrv(s) && s.loop != nil && s.loop.willDelayed != nil
+//@ ensures table-object-kept: cl.State.Inflight == old(cl.State.Inflight)
+//@ ensures C15-zero-expiry-cannot-be-raised: pk.Properties.SessionExpiryIntervalFlag && pk.Properties.SessionExpiryInterval > 0 && old(cl.Properties.Props.SessionExpiryInterval) == 0 ==> r0 != nil && cl.Properties.Props.SessionExpiryInterval == 0
+//@ ensures C15-session-expiry-capped-at-server-maximum: old(cl.Properties.Props.SessionExpiryInterval) <= s.Options.Capabilities.MaximumSessionExpiryInterval ==> cl.Properties.Props.SessionExpiryInterval <= s.Options.Capabilities.MaximumSessionExpiryInterval
+//@ ensures C16-normal-disconnect-stops-without-error: pk.ReasonCode != 4 && !(pk.Properties.SessionExpiryIntervalFlag && pk.Properties.SessionExpiryInterval > 0 && old(cl.Properties.Props.SessionExpiryInterval) == 0) ==> r0 == nil && cl.stopped
+//@ ensures C16-disconnect-with-will-is-an-abnormal-end: pk.ReasonCode == 4 && !(pk.Properties.SessionExpiryIntervalFlag && pk.Properties.SessionExpiryInterval > 0 && old(cl.Properties.Props.SessionExpiryInterval) == 0) ==> r0 != nil
